@@ -134,8 +134,96 @@ def _detach_rule(chk, prog):
     chk.floor(rule, 5)
 
 
+def _enqueue_rule(chk, prog):
+    rule = "C07-GENERATION"
+    from jv import flow
+    fn = prog.need_func("janet_schedule_general", "ev.c")
+    chk.analysed(fn)
+    incs = [x for x in fn.nodes if x.k == "un" and x.op in ("pre++", "post++") and is_mem(x.kids[0], "sched_id", "JanetFiber")]
+    if not incs:
+        raise AnalysisBroken("janet_schedule_general: sched_id increment not found")
+
+    def transfer(st, n):
+        if n in incs:
+            return frozenset(["bumped"])
+        if n.k == "call" and n.callee in ("janet_q_push", "janet_q_push_head") and any(is_mem(x, "spawn", "JanetVM") for x in n.walk()):
+            return frozenset()
+        return st
+    IN, OUT = flow.forward(fn, frozenset(), transfer, lambda a, b: a | b)
+    st = IN.get(fn.exit)
+    chk.instance(rule)
+    if st:
+        chk.violation(rule, "ev.c", fn.name, "bump-without-enqueue", incs[0].loc,
+                      "janet_schedule_general advances the fiber's generation on a path that returns without enqueuing the task: "
+                      "a task or timeout already queued for the fiber becomes stale and its wake-up is discarded")
+    else:
+        chk.ok(rule, "every path that advances sched_id enqueues the task that carries it")
+
+
+def _timeout_rule(chk, prog):
+    rule = "C07-TIMEOUT"
+    chk.rule(rule, "after a timeout is armed for the current wait nothing can raise before the fiber suspends")
+    from jv import flow
+    from jv.summaries import Summaries
+    full = Program.load("default")
+    S_ = Summaries(full)
+    n = 0
+    for fn in full.all_funcs():
+        arms = fn.calls("janet_addtimeout", "janet_addtimeout_nil")
+        if not arms:
+            continue
+        chk.analysed(fn)
+
+        GETTER_OF = {"JANET_BUFFER": "janet_getbuffer", "JANET_STRING": "janet_getstring", "JANET_ARRAY": "janet_getarray",
+                     "JANET_TABLE": "janet_gettable", "JANET_FIBER": "janet_getfiber", "JANET_FUNCTION": "janet_getfunction"}
+
+        def transfer(st, x):
+            if x in arms:
+                return st | frozenset([("armed",)])
+            return st
+
+        def edge(st, blk, succ, cond, truth):
+            # janet_checktype(argv[k], JANET_T) known true: the matching getter on argv[k] cannot raise
+            if cond is None or not truth:
+                return st
+            for x in cond.walk():
+                names = x.macro_names()
+                if "janet_checktype" in names:
+                    subs = [y for y in cond.walk() if y.k == "sub"]
+                    enums = [y.name for y in cond.walk() if y.k == "ref" and y.d.get("d") == "enum" and y.name in GETTER_OF]
+                    if subs and enums and subs[0].kids[1].v is not None:
+                        return st | frozenset([("typed", subs[0].kids[0].text(), subs[0].kids[1].v, GETTER_OF[enums[0]])])
+            return st
+        IN, OUT, T = flow.forward_paths(fn, frozenset(), transfer, edge)
+        bad = []
+        for b, S in IN.items():
+            for x in fn.blocks[b].elems:
+                if x.k == "call" and x not in arms and not full.is_noreturn(x.callee or "") and S_.call_in(fn, x, S_.may_panic):
+                    for s2 in S:
+                        if ("armed",) not in s2:
+                            continue
+                        if len(x.args) >= 2 and x.args[1].v is not None and \
+                                ("typed", x.args[0].text(), x.args[1].v, x.callee) in s2:
+                            continue
+                        bad.append(x)
+                        break
+                S = T(S, x)
+        n += 1
+        chk.instance(rule)
+        if bad:
+            chk.violation(rule, fn.tu.name, fn.name, bad[0].callee or "call", bad[0].loc,
+                          "%s arms a timeout and can then raise in %s before suspending: the timeout stays queued with the fiber's "
+                          "current generation and cancels its next, unrelated wait" % (fn.name, bad[0].text()[:40]))
+        else:
+            chk.ok(rule, "%s: nothing can raise between arming the timeout and suspending" % fn.name)
+    if n < 6:
+        raise AnalysisBroken("only %d functions arming timeouts found" % n)
+
+
 def run(chk):
     prog = Program.load("default", units=UNITS)
     _sched_rule(chk, prog)
     _generation_rule(chk, prog)
+    _enqueue_rule(chk, prog)
     _detach_rule(chk, prog)
+    _timeout_rule(chk, prog)
